@@ -1,0 +1,42 @@
+//go:build verif
+
+// Contracts for package ovmf, checked by /verif (govc). Comment-only; compiled only under -tags verif.
+package ovmf
+
+//@ func GetFwGUIDTable
+//@   assigns nothing
+//@   sweep[C08]
+//@   ensures[C08] err == nil ==> len(result0) <= len(firmware)
+
+//@ func GetFwGUIDToBlockMap
+//@   assigns nothing
+//@   sweep[C08]
+//@   ensures[C08] err == nil ==> result0 != nil
+//@   ghostparam k String
+//@   ensures[C08] err == nil && has(result0, k) ==> len(result0[k]) <= len(firmware) && len(result0[k]) >= 18
+//@   loop 1 invariant 0 <= guidTableUnprocessedLength && guidTableUnprocessedLength <= len(guidTable) && guidBlockMap != nil && fresh(guidBlockMap)
+//@   loop 1 invariant has(guidBlockMap, k) ==> len(guidBlockMap[k]) <= len(guidTable) && len(guidBlockMap[k]) >= 18
+//@   loop 1 decreases[C08] guidTableUnprocessedLength
+
+//@ func extractGUIDBlockFromMap
+//@   requires forall(k, string, has(guidBlockMap, k) ==> len(guidBlockMap[k]) < 4294967296)
+//@   assigns nothing
+//@   sweep[C08]
+//@   ensures[C08] err == nil ==> len(result0) == blockSize
+
+//@ func extractSevEsResetBlock
+//@   requires forall(k, string, has(guidBlockMap, k) ==> len(guidBlockMap[k]) < 4294967296)
+//@   assigns nothing
+//@   sweep[C08]
+
+//@ func extractSevOvmfMetadata
+//@   requires len(firmware) < 2147483648
+//@   requires forall(k, string, has(guidBlockMap, k) ==> len(guidBlockMap[k]) < 4294967296)
+//@   assigns nothing
+//@   sweep[C08]
+//@   alloc 36 * len(firmware) + 4096
+//@   loop 1 invariant 0 <= it && it <= sevMetadata.Sections
+
+//@ func (*SevData).ExtractFromFirmware
+//@   requires d != nil && len(data) < 2147483648
+//@   sweep[C08]
